@@ -58,7 +58,9 @@ func scalarStrings(seed int64, core bool, nalph int, allPatterns bool) [][]byte 
 	}
 	for _, l := range []byte{0x40, 0x80, 0xc0, 0x3f, 0x7f, 0xbf} {
 		pat(0x00, l, 0x00)
-		pat(0xff, l, 0xff)
+		if allPatterns || l == 0x7f || l == 0xbf || l == 0x3f {
+			pat(0xff, l, 0xff)
+		}
 	}
 	pat(0xf8, 0x7f, 0xff) // the largest clamped scalar
 	pat(0x00, 0x40, 0x00) // the smallest clamped scalar 2^254
@@ -438,7 +440,7 @@ func aliasSpace(c *mc.Ctx) {
 	})
 
 	// in-place run of the RFC 7748 section 5.2 iteration: k, u = X25519(k, u), k
-	iters := c.Pick(32, 160)
+	iters := c.Pick(24, 160)
 	starts := [][]byte{nine, mc.Bytes(c.Seed, "c07-iter", 0, 32), rep(0xff)}
 	alphed.Par(c, "in-place-iteration", len(starts)*3, func(w *mc.W, i int) {
 		start, variant := starts[i/3], i%3
